@@ -129,6 +129,9 @@ func isLenOf(x ssa.Value) func(ssa.Value) bool {
 
 // isElemLoad matches a load of x[idx] where idx satisfies mi.
 func isElemLoad(x ssa.Value, mi func(ssa.Value) bool) func(ssa.Value) bool {
+	if mi == nil {
+		mi = func(ssa.Value) bool { return true }
+	}
 	return func(v ssa.Value) bool {
 		switch y := v.(type) {
 		case *ssa.UnOp:
@@ -374,4 +377,186 @@ func boolStr(b bool) string {
 		return "true"
 	}
 	return "false"
+}
+
+// ---------------------------------------------------------------------------
+// Counted loops
+
+// innermostLoop returns the smallest natural loop containing block b.
+func innermostLoop(g *ssax.Graph, b int) (natLoop, bool) {
+	var best natLoop
+	found := false
+	for _, l := range loopsOf(g) {
+		if l.Blocks[b] && (!found || len(l.Blocks) < len(best.Blocks)) {
+			best, found = l, true
+		}
+	}
+	return best, found
+}
+
+// loopExits returns the edges that leave the loop.
+func loopExits(g *ssax.Graph, l natLoop) [][2]int {
+	var out [][2]int
+	for b := range l.Blocks {
+		for _, s := range g.Succs[b] {
+			if !l.Blocks[s] {
+				out = append(out, [2]int{b, s})
+			}
+		}
+	}
+	return out
+}
+
+// counter recognises v as c+d where c is a loop counter phi [init, c+1, c+1, ...]
+// and d is 0 or 1.
+func counter(v ssa.Value) (phi *ssa.Phi, init ssa.Value, d int64, ok bool) {
+	if b, isB := v.(*ssa.BinOp); isB && b.Op == token.ADD {
+		if k, isK := ssax.ConstInt(b.Y); isK && k == 1 {
+			if p, in, d0, ok0 := counter(b.X); ok0 && d0 == 0 {
+				return p, in, 1, true
+			}
+		}
+		return nil, nil, 0, false
+	}
+	p, isP := v.(*ssa.Phi)
+	if !isP {
+		return nil, nil, 0, false
+	}
+	in := counterInit(p)
+	if in == nil {
+		return nil, nil, 0, false
+	}
+	return p, in, 0, true
+}
+
+// counterInit returns the one incoming value of p that is not p+1, provided
+// every other incoming value is p+1.
+func counterInit(p *ssa.Phi) ssa.Value {
+	var init ssa.Value
+	steps := 0
+	for _, e := range p.Edges {
+		if b, ok := e.(*ssa.BinOp); ok && b.Op == token.ADD && b.X == ssa.Value(p) {
+			if c, isK := ssax.ConstInt(b.Y); isK && c == 1 {
+				steps++
+				continue
+			}
+		}
+		if init != nil {
+			return nil
+		}
+		init = e
+	}
+	if steps == 0 {
+		return nil
+	}
+	return init
+}
+
+// countedExit describes a loop exit edge taken when "c+e < bound" is false.
+type countedExit struct {
+	Phi   *ssa.Phi
+	Init  ssa.Value
+	E     int64
+	Bound ssa.Value
+	Block int
+}
+
+// exitIsCounted recognises the exit edge x->y of loop l as the false branch of
+// "counter < bound" (or the true branch of "counter >= bound").
+func exitIsCounted(g *ssax.Graph, l natLoop, x, y int) (countedExit, bool) {
+	blk := g.Fn.Blocks[x]
+	ifi, ok := blk.Instrs[len(blk.Instrs)-1].(*ssa.If)
+	if !ok || len(blk.Succs) != 2 {
+		return countedExit{}, false
+	}
+	exitOnTrue := blk.Succs[0].Index == y
+	cond := ifi.Cond
+	for {
+		u, isU := cond.(*ssa.UnOp)
+		if !isU || u.Op != token.NOT {
+			break
+		}
+		cond, exitOnTrue = u.X, !exitOnTrue
+	}
+	b, isB := cond.(*ssa.BinOp)
+	if !isB {
+		return countedExit{}, false
+	}
+	var cv, bound ssa.Value
+	switch {
+	case b.Op == token.LSS && !exitOnTrue:
+		cv, bound = b.X, b.Y
+	case b.Op == token.GTR && !exitOnTrue:
+		cv, bound = b.Y, b.X
+	case b.Op == token.GEQ && exitOnTrue:
+		cv, bound = b.X, b.Y
+	case b.Op == token.LEQ && exitOnTrue:
+		cv, bound = b.Y, b.X
+	default:
+		return countedExit{}, false
+	}
+	phi, init, e, ok := counter(cv)
+	if !ok || phi.Block().Index != l.Header {
+		return countedExit{}, false
+	}
+	return countedExit{phi, init, e, bound, x}, true
+}
+
+// bodyRange computes, for a value v = c+d used at instruction `at` inside a
+// counted loop all of whose exits are counted exits on the same counter with a
+// constant bound, the exact range [lo, hi) of values v takes at `at`.
+func bodyRange(g *ssax.Graph, at ssa.Instruction, v ssa.Value) (lo, hi int64, why string) {
+	phi, init, d, ok := counter(v)
+	if !ok {
+		return 0, 0, "the value is not a loop counter (c or c+1 with c starting at a constant and stepping by 1)"
+	}
+	a, ok := ssax.ConstInt(init)
+	if !ok {
+		return 0, 0, "the counter does not start at a constant"
+	}
+	l, ok := innermostLoop(g, at.Block().Index)
+	if !ok || l.Header != phi.Block().Index {
+		return 0, 0, "the use is not in the counter's loop"
+	}
+	exits := loopExits(g, l)
+	if len(exits) == 0 {
+		return 0, 0, "the loop has no exit"
+	}
+	first := true
+	for _, ex := range exits {
+		ce, ok := exitIsCounted(g, l, ex[0], ex[1])
+		if !ok || ce.Phi != phi {
+			return 0, 0, "the loop can be left through b" + itoa(ex[0]) + " other than by exhausting the counter"
+		}
+		k, isK := ssax.ConstInt(ce.Bound)
+		if !isK {
+			return 0, 0, "the loop bound is not a constant"
+		}
+		var h int64
+		switch {
+		case g.DomBlock(ce.Block, at.Block().Index) && ce.Block != at.Block().Index:
+			// test before the body: body runs while c+e < k
+			h = k - ce.E + d
+		case g.DomBlock(at.Block().Index, ce.Block):
+			// test after the body (rotated loop): body saw c, continues while c+e < k
+			if ce.E != 1 {
+				return 0, 0, "unrecognised rotated loop test"
+			}
+			h = k + d // c = a..k-1, v = c+d
+		default:
+			return 0, 0, "the loop test neither precedes nor follows the use on every iteration"
+		}
+		if first {
+			hi, first = h, false
+		} else if h != hi {
+			return 0, 0, "the loop exits disagree on the bound"
+		}
+	}
+	return a + d, hi, ""
+}
+
+// isBuiltinCall reports whether c calls the named builtin.
+func isBuiltinCall(c *ssa.Call, name string) bool {
+	b, ok := c.Call.Value.(*ssa.Builtin)
+	return ok && b.Name() == name
 }
